@@ -122,7 +122,7 @@ def run(tier: str) -> int:
         "samples": [behs[0], behs[len(behs) // 2], behs[-1]],
         "exhaustive": True,
         "design_mc": {"cfg": "GraphOps_MC_M3.cfg", "cached": mc_cached, **mcres,
-                      "invariants": ["TypeOK", "Laws", "NodesShrink"]},
+                      "invariants": ["TypeOK", "Laws", "NodesShrink", "MutatorsGrow"]},
         "behaviours": {"M3_depth1_exhaustive": len(gen_m3["behs"]),
                        "M3_walks_depth3": min(cap, len(sim3["behs"])),
                        "N5_walks_depth4": min(cap, len(sim5["behs"])),
@@ -134,7 +134,8 @@ def run(tier: str) -> int:
         "distinct_nontrivial": nontrivial,
         "rule": "behaviour = initial mixed graph + operation sequence; non-trivial = initial graph has "
                 "both directed and bidirected edges; exhaustive over all 512 mixed graphs on 3 nodes x "
-                "all node subsets x all operations at depth 1, sampled walks beyond",
+                "all node subsets x all operations at depth 1, sampled walks beyond; walks interleave the in-place mutators "
+                "(add_node, add_directed_edge, add_undirected_edge) with the operations on ONE live object",
     }
     return out.finish(
         "model_checking",
